@@ -7,15 +7,16 @@ from symx.scalar import Q, SymBool
 from cr.cube.cube import Cube
 
 from . import common as C
+from .wire import world_for
 from .c01 import V
 from .c02 import Vs, bases_matrix
 
 META = {
     "title": "proportions = count / base, in [0,1], sum to 1",
     "bounds": {
-        "quick": {"cat_valid": 2, "mr_items": 2, "ca": "2x2", "pairs": "CAT/MR squared, CA, CAT_DATE; 1-D CAT/MR",
+        "quick": {"wire-level (one unknown per wire cell, positive head counts)": "MR(3) x CAT(3), CAT(3)+subtotal x MR(3), MR(3) x MR(2..3)", "cat_valid": 2, "mr_items": 2, "ca": "2x2", "pairs": "CAT/MR squared, CA, CAT_DATE; 1-D CAT/MR",
                   "subtotals": "one bottom-anchored sum subtotal", "data": "all pattern masses m,u >= 0 (zero bases included)"},
-        "thorough": {"cat_valid": 3, "mr_items": "2-3", "ca": "2x3", "data": "all pattern masses"},
+        "thorough": {"wire-level (one unknown per wire cell, positive head counts, weighted counts >= 0)": "CAT(5)+2 subtotals squared, MR(5) x CAT(4)+subtotal and transposed, MR(4) x MR(4), MR(5) and CAT(6)+2 subtotals strands", "cat_valid": 3, "mr_items": "2-3", "ca": "2x3", "data": "all pattern masses"},
     },
     "assumptions": ["A1: pattern masses m[p] >= 0, u[p] >= 0", "tabulator models the backend wire layout; floats are reals"],
     "outside": ["difference subtotals (C04)", "sizes beyond the bounds"],
@@ -79,8 +80,8 @@ def _sum_to_one(eng, P, B, axis, nbase):
     return out
 
 
-def two_d(eng, rows, cols, weighted=True):
-    world = C.World(eng, [rows, cols] if cols is not None else [rows])
+def two_d(eng, rows, cols, weighted=True, wire=False):
+    world = world_for(eng, [rows, cols] if cols is not None else [rows], wire)
     cube = Cube(world.response(weighted=weighted))
     part = cube.partitions[0]
     _, rax, cax = C.slice_axes(world)
@@ -123,8 +124,8 @@ def two_d(eng, rows, cols, weighted=True):
     return obs
 
 
-def one_d(eng, rows, weighted=True):
-    world = C.World(eng, [rows])
+def one_d(eng, rows, weighted=True, wire=False):
+    world = world_for(eng, [rows], wire)
     cube = Cube(world.response(weighted=weighted))
     part = cube.partitions[0]
     rax = world.axes[0]
@@ -190,7 +191,18 @@ def specs(tier):
     add("1d cat", "one_d", dict(rows=V("cat", "a", 3, (1,))))
     add("1d cat+sub", "one_d", dict(rows=Vs("cat", "a", 3, (0,), sub=[1, 3])))
     add("1d mr", "one_d", dict(rows=V("mr", "a", 3)))
+    # wire-level worlds (props/wire.py): one unknown per wire cell, larger sizes
+    add("wire 2d mr3 x cat3", "two_d", dict(rows=V("mr", "a", 3), cols=V("cat", "b", 3, (1,)), wire=True))
+    add("wire 2d cat3+sub x mr3", "two_d", dict(rows=Vs("cat", "a", 3, (0,), sub=[1, 3]), cols=V("mr", "b", 3), wire=True))
+    add("wire 2d mr3 x mr2", "two_d", dict(rows=V("mr", "a", 3), cols=V("mr", "b", 2), wire=True))
     if tier == "thorough":
+        add("wire 2d cat5+2sub x cat5+2sub", "two_d", dict(rows=Vs("cat", "a", 5, (2,), sub=[1, 4], sub2=[2, 3, 5]), cols=Vs("cat", "b", 5, (0, 3), sub=[2, 3], sub2=[1, 5]), wire=True), max_paths=400)
+        add("wire 2d mr5 x cat4+sub", "two_d", dict(rows=V("mr", "a", 5), cols=Vs("cat", "b", 4, (1,), sub=[1, 2]), wire=True), max_paths=400)
+        add("wire 2d cat4+sub x mr5", "two_d", dict(rows=Vs("cat", "a", 4, (4,), sub=[2, 4]), cols=V("mr", "b", 5), wire=True), max_paths=400)
+        add("wire 2d mr4 x mr4", "two_d", dict(rows=V("mr", "a", 4), cols=V("mr", "b", 4), wire=True), max_paths=400)
+        add("wire 2d mr3 x mr3 unweighted", "two_d", dict(rows=V("mr", "a", 3), cols=V("mr", "b", 3), wire=True, weighted=False), max_paths=400)
+        add("wire 1d mr5", "one_d", dict(rows=V("mr", "a", 5), wire=True))
+        add("wire 1d cat6+2sub", "one_d", dict(rows=Vs("cat", "a", 6, (2, 5), sub=[1, 6], sub2=[2, 3, 4]), wire=True))
         add("2d cat3 x cat3", "two_d", dict(rows=V("cat", "a", 3, (1,)), cols=V("cat", "b", 3, (0, 2))), max_paths=400)
         add("2d cat3+sub x cat3+sub", "two_d", dict(rows=Vs("cat", "a", 3, (3,), sub=[1, 3]), cols=Vs("cat", "b", 3, (0,), sub=[2, 3])), max_paths=400)
         add("2d cat3 x mr", "two_d", dict(rows=V("cat", "a", 3, (1,)), cols=V("mr", "b", 2)), max_paths=400)
